@@ -1,26 +1,7 @@
-import TxV.Model.SimultaneousProto
-import TxV.Proofs.Simultaneous
+import TxV.Proofs.SimultaneousChecks
 /-!
-Driver of C12 (`condition()`): line protocol of `TxV/Model/SimultaneousProto.lean`.
-The `Checks` are the decidable hypotheses of the theorems of `TxV/Props/C12.lean` / `C13.lean`
-(`TxV.Core.shapeC12B`, `nbrOkB`, `shapeC13B`, `linkEnB`, `derEnB`, `defaultReadyB`, and the core's
-`Bridge.staticOk` / `Bridge.cycleOk`), evaluated on the model's post-merge design (which the driver
-compares with the real one: `merge=`).
+Driver of C12: line protocol of `TxV/Model/SimultaneousProto.lean` (cfg line = real pre-merge and post-merge designs plus
+the description of the inputs; valuation lines) with the decidable hypotheses of the theorems of
+`TxV/Props/C12.lean` from `TxV/Proofs/SimultaneousChecks.lean`.
 -/
-open TxV TxV.Core TxV.Core.Bridge
-
-def TxV.SimulProto.useOf (u : TxV.Simul.Use) : TxV.Core.CondUse := ⟨u.parent, u.branches, u.hasDefault, u.priority⟩
-
-def TxV.SimulProto.checks : TxV.SimulProto.Checks (TxV.Core.Design × TxV.Core.Sched) where
-  prep := fun D E order => (toAbs D, toSched E order)
-  staticOk := staticOk
-  cycleOk := cycleOk
-  shape12 := fun a u L Dr => shapeC12B a.1 (TxV.SimulProto.useOf u) L Dr
-  nbr := fun a u => nbrOkB a.1 a.2 (TxV.SimulProto.useOf u)
-  shape13 := fun a x y L => shapeC13B a.1 x y L
-  linkEn := fun a v rb L => linkEnB a.1 ⟨v.ready, v.en, v.arg, fun _ _ => true⟩ rb L
-  derEn := fun v rb Dr => derEnB ⟨v.ready, v.en, v.arg, fun _ _ => true⟩ rb Dr
-  dflt := fun v u => defaultReadyB ⟨v.ready, v.en, v.arg, fun _ _ => true⟩ (TxV.SimulProto.useOf u)
-
-def main : IO Unit :=
-  TxV.Proto.run (none : Option (TxV.SimulProto.St (TxV.Core.Design × TxV.Core.Sched))) (TxV.SimulProto.stepLine TxV.SimulProto.checks)
+def main : IO Unit := TxV.SimulProto.driverMain
